@@ -179,8 +179,62 @@ class Ctx:
                 if not isinstance(c, bool):
                     eng.add(c)
             return True
+        relaxed = relaxed or getattr(eng, "relaxations", 0) > 0        # anything computed through the float model may be an artefact
+        if relaxed and not callable(witness if witness is not None else self.witness):
+            # the relaxed (over-approximating) float model may produce artefacts: try several distinct models before giving up
+            w = witness if witness is not None else self.witness
+            if self._try_models(cond, what, w, m):
+                return False
+            return False
         self.violation(what, witness=witness, model=m, relaxed=relaxed)
         return False
+
+    def _try_models(self, cond, what, w, m, attempts=12):
+        """returns True when some model's concrete witness reproduces on the pristine code"""
+        eng = core.ENG
+        c = cond.t if isinstance(cond, SBool) else cond
+        leaves = []
+
+        def walk(x):
+            from .ints import SInt
+            from .seq import SSeq
+            if isinstance(x, SInt):
+                leaves.append(x.t)
+            elif isinstance(x, SSeq):
+                for e in x._d:
+                    walk(e)
+            elif isinstance(x, dict):
+                for v in x.values():
+                    walk(v)
+            elif isinstance(x, (list, tuple)):
+                for v in x:
+                    walk(v)
+        walk(w)
+        before = len(self.confirmed)
+        n_unconf = len(self.unconfirmed)
+        eng.solver.push()
+        try:
+            if not isinstance(c, bool):
+                eng.solver.add(z3.Not(c))
+            for k in range(attempts):
+                self.violation(what, witness=w, model=m, relaxed=True)
+                if len(self.confirmed) > before:
+                    del self.unconfirmed[n_unconf:]
+                    return True
+                if not leaves:
+                    break
+                eng.solver.add(z3.Or([t != m.eval(t, model_completion=True) for t in leaves]))
+                try:
+                    if not eng.check():
+                        break
+                except EngineLimit:
+                    break
+                m = eng.solver.model()
+            del self.unconfirmed[n_unconf + 1:]          # keep one representative of the non-reproducing witnesses
+            return False
+        finally:
+            eng.solver.pop()
+            eng.model = None
 
     def check_iff(self, got, spec, what, witness=None):
         """got <=> spec, decided by forking on `got` (the linear store then settles XOR-system equivalences)."""
@@ -195,6 +249,7 @@ class Ctx:
 
     def violation(self, what, witness=None, model=None, relaxed=False):
         eng = core.ENG
+        relaxed = relaxed or getattr(eng, "relaxations", 0) > 0
         self.c["failed_checks"] += 1
         self.reach("assert")
         if len(self.confirmed) + len(self.unconfirmed) >= self.MAX_CAND * 4:
@@ -380,6 +435,46 @@ def run_scenario(scen, prop, seed, known, engine_hooks=()):
     return merge(scen, results, time.time() - t0, len(roots))
 
 
+def _scenario_child(conn, scen, prop, seed, known):
+    from . import inject
+    try:
+        restore = inject.install(scen.domains)
+        try:
+            hooks = inject.engine_hooks(scen.domains)
+            if scen.prepare:
+                scen.prepare()
+            rep = run_scenario(scen, prop, seed, known, hooks)
+            rep["inject_info"] = dict(inject.INFO)
+        finally:
+            restore()
+        rep["funcs"] = sorted(rep["funcs"])
+        conn.send(rep)
+    except BaseException as e:
+        conn.send({"child_error": f"{type(e).__name__}: {e}\n{traceback.format_exc()[-1500:]}"})
+    finally:
+        conn.close()
+
+
+def run_isolated(scen, prop, seed, known):
+    """Each scenario runs in its own process forked from the (solver-free) driver: the solver's state, term numbering and
+    the injected names never leak from one scenario into the next, so a scenario's result does not depend on what ran before it."""
+    ctx = mp.get_context("fork")
+    parent, child = ctx.Pipe(duplex=False)
+    p = ctx.Process(target=_scenario_child, args=(child, scen, prop, seed, known))
+    p.start()
+    child.close()
+    try:
+        rep = parent.recv()
+    except EOFError:
+        rep = {"child_error": "scenario process died without a report"}
+    p.join()
+    if "child_error" in rep:
+        rep = dict(name=scen.name, bounds=scen.bounds, c={}, stats={}, samples=[], confirmed=[], unconfirmed=[], mismatches=[], replays_ok=0, limits=[],
+                   faults=[rep["child_error"]], funcs=[], wall_s=0, subtrees=0, missing_reach=[], extra={}, assumptions=list(scen.assumptions))
+    rep["funcs"] = set(rep["funcs"])
+    return rep
+
+
 def merge(scen, results, wall, subtrees):
     c = collections.Counter()
     stats = collections.Counter()
@@ -431,14 +526,7 @@ def run_check(prop, level, scenarios, tier, *, technique, assumptions=(), outsid
             reports.append(dict(name=scen.name, bounds=scen.bounds, skipped="time budget of the tier exhausted", c={}, stats={}, samples=[], confirmed=[],
                                 unconfirmed=[], mismatches=[], replays_ok=0, limits=["tier budget"], faults=[], funcs=set(), wall_s=0, subtrees=0, missing_reach=[], extra={}))
             continue
-        restore = inject.install(scen.domains)
-        try:
-            hooks = inject.engine_hooks(scen.domains)
-            if scen.prepare:
-                scen.prepare()
-            rep = run_scenario(scen, prop, seed, known, hooks)
-        finally:
-            restore()
+        rep = run_isolated(scen, prop, seed, known)
         reports.append(rep)
         print(f"[{prop}] {scen.name}: paths={rep['c'].get('paths', 0)} proved={rep['c'].get('proved', 0)}/{rep['c'].get('checks', 0)} "
               f"queries={rep['stats'].get('queries', 0)} abandoned={rep['stats'].get('abandoned', 0)} replays={rep['replays_ok']} "
